@@ -1569,6 +1569,45 @@ def replay_line(line):
         r, sel, bad = run_part(cwd, count, ident, pats, allf, "flags")
         shutil.rmtree(cwd, ignore_errors=True)
         return "sel " + str(len(sel)) + "".join(" " + hx(p) for p in sel)
+    if t[0] == "partsrc":
+        src = [None if x == "-" else unhx(x) for x in t[1:7]]
+        ng = int(t[7])
+        i, globs = 8, []
+        for _ in range(ng):
+            k = int(t[i]); i += 1
+            globs.append([unhx(x) for x in t[i:i + k]]); i += k
+        cwd = fresh_dir("replay")
+        allf = []
+        pats = []
+        for g in globs:
+            for f in g:
+                os.makedirs(os.path.dirname(os.path.join(cwd, f)), exist_ok=True)
+                open(os.path.join(cwd, f), "w").write("statement ok\nselect 1\n")
+                if f not in allf:
+                    allf.append(f)
+            if g:
+                pats.append(os.path.dirname(g[0]) + "/*.slt")
+        args, env = list(pats), {}
+        if src[0] is not None:
+            args = ["--partition-count", src[0]] + args
+        if src[1] is not None:
+            args = ["--partition-id", src[1]] + args
+        for v, name in zip(src[2:], ("SLT_PARTITION_COUNT", "SLT_PARTITION_ID", "BUILDKITE_PARALLEL_JOB_COUNT", "BUILDKITE_PARALLEL_JOB")):
+            if v is not None:
+                env[name] = v
+        r = run_cli(cwd, args, env)
+        st = statuses(r.stdout, allf)
+        shutil.rmtree(cwd, ignore_errors=True)
+        if r.exit != 0 and not r.events:
+            return "error"
+        left = {f: len(v) for f, v in st.items()}
+        sel = []
+        for g in globs:
+            for f in g:
+                if left.get(f, 0) > 0:
+                    sel.append(f)
+                    left[f] -= 1
+        return "sel " + str(len(sel)) + "".join(" " + hx(p) for p in sel)
     if t[0] == "partcfg":
         cwd = fresh_dir("replay")
         os.makedirs(os.path.join(cwd, "d"))
